@@ -419,6 +419,36 @@ func (n *Node) Produce(ctx context.Context, ts time.Time) (blk *types.Block, gen
 	return
 }
 
+// ProduceNow is what a correct producer does at its local time: the DPoS decision whether this
+// instant belongs to one of its slots (membership, slot owner, not yet produced, timing), block
+// generation for that slot and the producer-path connect. produced=false: not its turn.
+func (n *Node) ProduceNow(ctx context.Context) (blk *types.Block, produced bool, genErr, addErr error) {
+	n.Do(func() {
+		var bs *state.BlockState
+		blk, bs, genErr, produced = n.DP.VerifGenerateNow(ctx, simclock.Now(), n.LpbNo)
+		if !produced || genErr != nil {
+			blk = nil
+			return
+		}
+		addErr = n.CS.VerifAddBlock(blk, bs, "")
+		if addErr == nil {
+			n.LpbNo = blk.BlockNo()
+		}
+	})
+	return
+}
+
+// ConnectOwn connects a block this node generated itself (producer path).
+func (n *Node) ConnectOwn(blk *types.Block, bs *state.BlockState) (err error) {
+	n.Do(func() {
+		err = n.CS.VerifAddBlock(blk, bs, "")
+		if err == nil {
+			n.LpbNo = blk.BlockNo()
+		}
+	})
+	return
+}
+
 // Generate only builds and signs a block (no connect); used by branch builders and
 // Byzantine producers.
 func (n *Node) Generate(ctx context.Context, ts time.Time) (blk *types.Block, bs *state.BlockState, err error) {
